@@ -209,6 +209,13 @@ def split_stmts(body):
     while True:
         while i < n and body[i].isspace(): i += 1
         if i >= n: break
+        if re.match(r"match\b", body[i:]):
+            j = body.find("{", i)
+            e = match_brace(body, j)
+            out.append(("match", (" ".join(body[i + 5:j].split()), body[j + 1:e])))
+            i = e + 1
+            if i < n and body[i] == ";": i += 1
+            continue
         if re.match(r"if\b", body[i:]):
             chain = []
             while True:
@@ -365,8 +372,19 @@ def gen(repo):
     sig = " ".join(fn_sig(rab, "check_rabin_params").split())
     if not re.search(r"chunk_size: usize, chunk_min_size: usize, chunk_max_size: usize", sig):
         raise ExtractError("check_rabin_params signature changed: " + sig)
-    tr = Tr({"chunk_size": ("e", "(EVar V_cs)", "U64"), "chunk_min_size": ("e", "(EVar V_min)", "U64"),
-             "chunk_max_size": ("e", "(EVar V_max)", "U64")})
+    rctx = {"chunk_size": ("e", "(EVar V_cs)", "U64"), "chunk_min_size": ("e", "(EVar V_min)", "U64"),
+            "chunk_max_size": ("e", "(EVar V_max)", "U64")}
+    # named constants of the `constants` module used in the checks (e.g. MIN_CHUNK_MIN_SIZE)
+    rkb0 = int_expr(const_value(rab, "KB"))
+    def rconst(name, depth=0):
+        v = const_value(rab, name)
+        for dep in set(re.findall(r"\b[A-Z][A-Z0-9_]+\b", v)):
+            if depth > 4: raise ExtractError("constant chain too deep: " + name)
+            v = re.sub(r"\b%s\b" % dep, str(rkb0 if dep == "KB" else rconst(dep, depth + 1)), v)
+        return int_expr(v)
+    for cname in set(re.findall(r"\bconstants::([A-Z][A-Z0-9_]*)\b", rb)):
+        rctx["constants::" + cname] = ("e", "(EConst %s)" % zlit(rconst(cname)), "U64")
+    tr = Tr(rctx)
     rchecks = []
     sts = split_stmts(rb)
     for k, v in sts[:-1]:
@@ -392,6 +410,25 @@ def gen(repo):
     sts = split_stmts(ab)
     if sts[-1] != ("stmt", "Ok(())"): raise ExtractError("ConfigOptions::apply does not end with Ok(())")
     for k, v in sts[:-1]:
+        if k == "match":
+            scrut, arms = v
+            arms = " ".join(arms.split())
+            ma = re.fullmatch(r"Chunker::Rabin => check_rabin_params\( config\.chunk_size\(\), config\.chunk_min_size\(\), config\.chunk_max_size\(\), \)\?, "
+                              r"Chunker::FixedSize => check_fixed_size_params\(config\.chunk_size\(\)\)\?,?", arms)
+            if scrut != "config.chunker()" or not ma:
+                raise ExtractError("apply: match statement not recognised: match %s { %s }" % (scrut, arms[:120]))
+            fx = read(repo, "crates/core/src/chunker/fixed_size.rs")
+            fsts = split_stmts(fn_body(fx, "check_fixed_size_params"))
+            if "chunk_size: usize" not in fn_sig(fx, "check_fixed_size_params") or len(fsts) != 2 or fsts[0][0] != "if" \
+               or len(fsts[0][1]) != 1 or " ".join(fsts[0][1][0][0].split()) != "chunk_size == 0" or fsts[1] != ("stmt", "Ok(())"):
+                raise ExtractError("check_fixed_size_params has an unexpected shape")
+            pre_r = Tr(cfg_ctx, enums=enums).c(parse_expr("matches!(config.chunker(), Chunker::Rabin)"))
+            steps.append("SCheck %s rabin_checks" % pre_r)
+            shapes.append((None, None, "check_rabin_params"))
+            pre_f = Tr(cfg_ctx, enums=enums).c(parse_expr("matches!(config.chunker(), Chunker::FixedSize) && config.chunk_size() == 0"))
+            steps.append("SCheck (CConst true) %s" % checks_coq([(pre_f, err_of_block(fsts[0][1][0][1], errs))]))
+            shapes.append((None, None, "check"))
+            continue
         if k == "stmt":
             m = re.fullmatch(r"config\.(\w+) = self\.(\w+)", v)
             if not m or m.group(1) not in cidx or m.group(2) not in oidx:
